@@ -19,7 +19,7 @@ def run(tier, seed):
                                     theorem=pg['theorems'], problems=pg['problems']), False))
     ncases = 24 if tier == 'quick' else 400
     cases = [seed * 100000 + 20000 + i for i in range(ncases)]
-    for r in core.run_cases(run_case, cases):
+    for r in core.run_cases(run_case, core.with_corpus(PID, cases)):
         # C04-only violation kinds are reported by C04; keep the verdict correspondence and the C20 kinds
         r['violations'] = [v for v in r.get('violations', []) if v.get('kind', '').startswith('accepted-')]
         rep.merge(r)
